@@ -1,7 +1,7 @@
 #!/bin/bash
 # tools/intake_r3.sh <Cxx> : take in /tmp/seedgen/<Cxx>/out${R:-3}/{X,Y} under the next two free letters
 p="$1"
-letters=(A B C D E F G H I J K L)
+letters=(A B C D E F G H I J K L M N O P Q R)
 n=$(ls -d /verif/seeded/$p-* 2>/dev/null | wc -l)
 for v in X Y; do
   l=${letters[$n]}; n=$((n+1))
